@@ -55,6 +55,7 @@ class C04(Check):
         "x {LF,CRLF} x final newline {yes,no} x description {no,yes} x buffer {1,2,3,100}. Oracle: quintuples, every interval via "
         "sequence_bytes, derived run list, stream-back == record with non-ACGT -> N, duplicate / empty files rejected, .fai/.agp "
         "files of a real-file slice and the warm reload. non-trivial = file with a non-ACGT run, or multi-line, or CRLF, or no final newline"
+        " Header variants: none, description, trailing blank, trailing tab, description with trailing blank. Duplicate rejection: every name sequence of 2-4 records with a repeat."
     )
     assumptions = [
         "well-formed = uniform width per record, no blank lines, no empty records, header token without spaces",
